@@ -124,7 +124,7 @@ type c10Case struct {
 	Ctx  time.Duration `json:"ctx"`
 	Rand float64       `json:"rand"`
 	Wrap int           `json:"wrap,omitempty"` // how the write context is composed around the TTL, see c10Wraps
-	Pre  int           `json:"pre,omitempty"`  // the key already holds an entry: 1 = written with a context TTL of +7h, 2 = of -7h, 3 = written and then expired by ExpireAll
+	Pre  int           `json:"pre,omitempty"`  // the key already holds an entry: 1 = written with a context TTL of +7h, 2 = of -7h, 3 = written and then expired by ExpireAll, 4 = no entry, but the write context was used before for a write to another cache
 }
 
 // c10Wraps: the context TTL has to survive the other context helpers and derived contexts around it.
@@ -202,6 +202,14 @@ func c10One(cc c10Cell, cs c10Case) (string, string, int) {
 	case 3:
 		_ = b.Write(ctx, key, 1)
 		b.ExpireAll(ctx)
+	case 4:
+		// the write context served before, for a write to ANOTHER cache (TimeToLive 7h): contexts are inputs only
+		if cs.Ctx == 0 && cs.Wrap == 0 {
+			wctx = cache.WithTTL(ctx, cache.DefaultTTL, false)
+		}
+
+		other := newBackend(cc.Backend, cache.Config{Name: "c10other", ExpirationJitter: cc.Jitter, TimeToLive: 7 * time.Hour})
+		_ = other.Write(wctx, []byte("other"), 1)
 	}
 
 	if cs.Pre != 0 {
@@ -377,7 +385,7 @@ func c10Cases(cc c10Cell, tier string) []c10Case {
 			continue
 		}
 
-		for pre := 1; pre <= 3; pre++ {
+		for pre := 1; pre <= 4; pre++ {
 			c := cases[i]
 			c.Pre = pre
 			cases = append(cases, c)
@@ -418,7 +426,7 @@ func c10Run(c Cell, env *Env) CellResult {
 				seen[sig] = true
 				js, _ := json.Marshal(cs)
 				res.Violations = append(res.Violations, Violation{
-					Signature: sig, Detail: fmt.Sprintf("%s (config TTL %v, context TTL %v as %s, jitter %v, rand %v, earlier entry of the key: %s)", detail, cs.Cfg, cs.Ctx, c10Wraps[cs.Wrap], cc.Jitter, cs.Rand, []string{"none", "context TTL +7h", "context TTL -7h", "expired by ExpireAll"}[cs.Pre]), Extra: js,
+					Signature: sig, Detail: fmt.Sprintf("%s (config TTL %v, context TTL %v as %s, jitter %v, rand %v, earlier entry of the key: %s)", detail, cs.Cfg, cs.Ctx, c10Wraps[cs.Wrap], cc.Jitter, cs.Rand, []string{"none", "context TTL +7h", "context TTL -7h", "expired by ExpireAll", "none, but the context was used for a write to another cache"}[cs.Pre]), Extra: js,
 				})
 			}
 
